@@ -1068,8 +1068,9 @@ static void fd_case(Builder& B, const std::string& gid, Emit& em) {
             fail = std::string("FAIL robustpath-sections-gap ") + buf;
         }
     }
-    // spine(): every vertex on the exact spine within the tolerance, and conversely
-    if (fail.empty()) {
+    // spine(): every vertex on the exact spine within the tolerance, and conversely (not repeated in the user-function classes:
+    // widths and offsets take no part in it)
+    if (fail.empty() && !B.param) {
         Array<Vec2> sp = {};
         rp.spine(sp);
         std::vector<V> got, ref;
